@@ -203,6 +203,12 @@ func init() {
 
 func init() {
 	families["C01"] = &rt.Family{Prop: "C01", Module: "MC_C01", PackSize: 1, Judge: "build", JudgeBuild: true,
+		MixedPacks: func(tier string) int {
+			if tier == "thorough" {
+				return 3000
+			}
+			return 400
+		},
 		More: []rt.Extra{
 			{Module: "MC_C02"}, {Module: "MC_C03"}, {Module: "MC_C09"}, {Module: "MC_C14S", Frac: frac(0.2, 1)},
 			{Module: "MC_C04", Frac: frac(0.3, 1)}, {Module: "MC_C08", Frac: frac(0.15, 1)}, {Module: "MC_C11", Frac: frac(0.15, 1)},
